@@ -361,70 +361,10 @@ Proof.
       rewrite <- app_assoc in IH |- *. cbn [app]. f_equal. rewrite <- IH. rewrite <- app_assoc. reflexivity.
 Qed.
 
-(* the jump table and the module tree declare the same functions (established by flatten_module and
-   stage_1 for trees whose module names are identifiers; assumed here, validated by the C08 runs) *)
-Definition table_matches (root : module) (jt : list (str * fmeta)) : Prop :=
-  forall path f, (exists m, sm_find (ns_prefix path ++ f) jt = Some m) <-> lookup root path f = Some (path, f).
-
-Definition direct (root : module) (ns : list str) (name : str) : option fid :=
-  let segs := segments name in
-  match lookup root (removelast segs) (last segs []) with
-  | Some x => Some x
-  | None => lookup root (ns ++ removelast segs) (last segs [])
-  end.
-
 Lemma lookup_id root path f x : lookup root path f = Some x -> x = (path, f).
 Proof. unfold lookup. destruct (find_module root path); [|discriminate]. destruct (has_function m f); congruence. Qed.
 
-(* resolve_sound / resolve_complete for the first two rules (absolute path, caller's own module):
-   the model's resolve_function returns the table entry of exactly the function the specification
-   designates *)
-Theorem resolve_direct_agrees root s name imports f :
-  table_matches root (cs_jump s) ->
-  direct root (cs_ns s) name = Some f ->
-  spec_resolve root (cs_ns s) imports name = SFound f /\
-  exists m, resolve_function name s = ROk m s /\
-            sm_find (ns_prefix (fst f) ++ snd f) (cs_jump s) = Some m.
-Proof.
-  intros Ht Hd. unfold direct in Hd. split.
-  - unfold spec_resolve. cbv zeta.
-    destruct (lookup root (removelast (segments name)) (last (segments name) [])) as [x|] eqn:E1.
-    + injection Hd as <-. reflexivity.
-    + cbn [or_else]. rewrite Hd. reflexivity.
-  - unfold resolve_function, bind, get.
-    destruct (lookup root (removelast (segments name)) (last (segments name) [])) as [x|] eqn:E1.
-    + injection Hd as <-. pose proof (lookup_id _ _ _ _ E1) as ->. cbn [fst snd].
-      apply Ht in E1. destruct E1 as [m Hm]. rewrite join_segments in Hm.
-      rewrite Hm. exists m. split; [reflexivity|]. rewrite join_segments. exact Hm.
-    + pose proof (lookup_id _ _ _ _ Hd) as ->. cbn [fst snd].
-      destruct (sm_find name (cs_jump s)) as [m1|] eqn:F1.
-      { exfalso. assert (Hx : exists m, sm_find (ns_prefix (removelast (segments name)) ++ last (segments name) []) (cs_jump s) = Some m)
-          by (rewrite join_segments; eauto).
-        apply Ht in Hx. congruence. }
-      apply Ht in Hd. destruct Hd as [m Hm].
-      rewrite ns_prefix_app, <- app_assoc, join_segments in Hm. rewrite Hm.
-      exists m. split; [reflexivity|]. rewrite ns_prefix_app, <- app_assoc, join_segments. exact Hm.
-Qed.
-
-(* when neither direct rule applies, the model's first two lookups miss as well: the outcome is decided
-   by the import rules (covered by the correspondence run, findings N-C08-1 / N-C08-2) *)
-Theorem resolve_direct_miss root s name :
-  table_matches root (cs_jump s) ->
-  direct root (cs_ns s) name = None ->
-  sm_find name (cs_jump s) = None /\ sm_find (ns_prefix (cs_ns s) ++ name) (cs_jump s) = None.
-Proof.
-  intros Ht Hd. unfold direct in Hd.
-  destruct (lookup root (removelast (segments name)) (last (segments name) [])) as [x|] eqn:E1; [discriminate|].
-  split.
-  - destruct (sm_find name (cs_jump s)) as [m|] eqn:F; auto. exfalso.
-    assert (Hx : exists m, sm_find (ns_prefix (removelast (segments name)) ++ last (segments name) []) (cs_jump s) = Some m)
-      by (rewrite join_segments; eauto).
-    apply Ht in Hx. congruence.
-  - destruct (sm_find (ns_prefix (cs_ns s) ++ name) (cs_jump s)) as [m|] eqn:F; auto. exfalso.
-    assert (Hx : exists m, sm_find (ns_prefix (cs_ns s ++ removelast (segments name)) ++ last (segments name) []) (cs_jump s) = Some m)
-      by (rewrite ns_prefix_app, <- app_assoc, join_segments; eauto).
-    apply Ht in Hx. congruence.
-Qed.
+(* resolve_sound / resolve_complete (all four rules) and the lift to compiled modules: ResolveProofs.v *)
 
 (* ------------------------------------------------------------------ findings N-C08-1 / N-C08-2 (repaired in /repo 4a89bbc) *)
 Definition b_ (l : list N) : str := l.
